@@ -16,6 +16,10 @@ type Statement struct {
 	PShape int `json:"pshape,omitempty"` // 0 {"AWS":[...]}  1 {"AWS":"x"} (single)  2 "*" / "x" string  3 [...] array
 	AShape int `json:"ashape,omitempty"` // 0 array, 1 string when single
 	RShape int `json:"rshape,omitempty"`
+	// OmitP / OmitA: the document has no "Principal" / "Action" key in this statement (the lists are then
+	// empty: the statement names nobody / nothing and matches no request)
+	OmitP bool `json:"omit_p,omitempty"`
+	OmitA bool `json:"omit_a,omitempty"`
 }
 
 type Policy struct {
@@ -61,6 +65,9 @@ func ActionMatch(pattern, action string) bool {
 }
 
 func (st *Statement) Matches(principal, action, resource string) bool {
+	if st.OmitP || st.OmitA {
+		return false
+	}
 	pm := false
 	for _, p := range st.Principals {
 		if p == "*" || p == principal {
@@ -123,6 +130,7 @@ func (p *Policy) JSON() []byte {
 		eb, _ := json.Marshal(st.Effect)
 		m["Effect"] = eb
 		switch {
+		case st.OmitP:
 		case st.PShape == 2 && len(st.Principals) == 1:
 			b, _ := json.Marshal(st.Principals[0])
 			m["Principal"] = b
@@ -136,7 +144,9 @@ func (p *Policy) JSON() []byte {
 			b, _ := json.Marshal(map[string][]string{"AWS": st.Principals})
 			m["Principal"] = b
 		}
-		m["Action"] = list(st.Actions, st.AShape)
+		if !st.OmitA {
+			m["Action"] = list(st.Actions, st.AShape)
+		}
 		m["Resource"] = list(st.Resources, st.RShape)
 		sts = append(sts, m)
 	}
